@@ -36,6 +36,16 @@ class Out:
         self.last_code = None  # (line, col_end) of the last code token emitted
         self.cls = []          # names of the enclosing classes that can have constructors (None: anonymous / namespace / interface)
         self.after_spec = False
+        self.names = None      # pool of function names (drawn WITH replacement: duplicates, overloads, words that are keywords elsewhere)
+        self.name_share = 0.0
+        self.extras = False    # continuation lines at any indentation (Python), multi-line macros (C / C++)
+
+    def func_name(self):
+        """name of the next function: fresh (`fn<k>`, unique) or, for a share, drawn with replacement from the pool"""
+        name = self.fresh()
+        if self.names and self.rnd.random() < self.name_share:
+            return self.rnd.choice(self.names)
+        return name
 
     def fresh(self, prefix="fn"):
         self.counter += 1
@@ -377,11 +387,11 @@ def header_for(out, name, where, special=None):
 def gen_func(out, parent, ind, depth, where, body_len=None, style=None):
     lang = out.lang
     rnd = out.rnd
-    name = out.fresh()
+    name = out.func_name()
     special = special_member(out, where)
     if special:
         name = out.cls[-1]
-    elif lang == "C#" and rnd.random() < 0.08:
+    elif lang == "C#" and name.startswith("fn") and name[2:].isdigit() and rnd.random() < 0.08:
         name = "@" + rnd.choice(["event", "class", "fn"]) + name[2:]    # verbatim identifier: ONE Name token `@event1`
     f = Func(len(out.funcs), name, parent)
     out.funcs.append(f)
@@ -513,24 +523,46 @@ def global_stmt(lang, rnd):
                        "typedef struct { int a; } t;", "extern int g(int a);", "int h(void);"])
 
 
-def gen_brace_program(lang, rnd, size=None, sweep=None, min_lines=None):
+MACROS = [
+    ["#define SWAP(a, b) \\", "  do { \\", "    int t = (a); (a) = (b); (b) = t; \\", "  } while (0)"],
+    ["#define DEFINE_GETTER(field) \\", "  static int get_##field(struct s *p) { \\", "    return p->field; \\", "  }"],
+    ["#define HANDLER(name) \\", "  void name(int a) \\", "  { \\", "    g(a); \\", "  }"],
+    ["#define CHECK(x) \\", "  if (!(x)) { \\", "    fail(#x); \\", "  }"],
+    ["#define LONG_LIST \\", "  1, 2, \\", "  3"],
+    ["#if defined(A) && \\", "    defined(B)", "#endif"],
+]
+
+
+def gen_macro(out):
+    """a preprocessor directive continued over several lines with backslashes (C / C++, global code): the lexers make
+    ONE preprocessor token of it, whatever it contains - braces, `name(...) {` shapes - so nothing of it is code"""
+    for text in out.rnd.choice(MACROS):
+        out.line((text, None, False))
+
+
+def gen_brace_program(lang, rnd, size=None, sweep=None, min_lines=None, count=1, names=None, name_share=0.5, extras=False):
     out = Out(lang, rnd)
+    out.names, out.name_share, out.extras = names, name_share, extras
     if sweep is not None:
-        # one function of exactly `sweep` body statements, in a random style
+        # `count` functions (one unless asked otherwise) of exactly `sweep` body statements each, in random styles
         if lang in ("Java", "C#"):
             out.line(("class K {", None, True))
             out.cls.append("K")
-            gen_func(out, None, 2, 0, where="class", body_len=sweep)
+            for _ in range(count):
+                gen_func(out, None, 2, 0, where="class", body_len=sweep)
             out.cls.pop()
             out.line(("}", None, True))
         else:
-            gen_func(out, None, 0, 0, where="global", body_len=sweep)
+            for _ in range(count):
+                gen_func(out, None, 0, 0, where="global", body_len=sweep)
         return out
     n = size or rnd.randint(1, 5)
     made = 0
     while made < n or (min_lines is not None and len(out.lines) < min_lines):
         made += 1
         noise(out, 0, None)
+        if out.extras and lang in ("C", "C++") and rnd.random() < 0.25:
+            gen_macro(out)
         r = rnd.random()
         if lang in ("Java", "C#"):
             if r < 0.2:
@@ -553,11 +585,39 @@ def py_stmts():
             "x += 1", "s = 'def f():'", "a, b = b, a", "assert x", "lam = lambda q: q + 1", "print(f'{x}')"]
 
 
+def cont_pad(out, pad):
+    """indentation of the line behind a backslash continuation: explicit line joining ignores it, so with `extras` it is
+    anything from column 1 (left of every enclosing header) to deeper than the statement"""
+    if not out.extras:
+        return pad + "    "
+    return out.rnd.choice(["", " ", pad[:len(pad) // 2], pad, pad + "    ", pad + "        "])
+
+
+def gen_py_continuation(out, owner, pad):
+    """a statement continued over 2-3 physical lines with backslashes; every line carries code tokens of `owner`"""
+    rnd = out.rnd
+    k = rnd.random()
+    if k < 0.5:
+        out.line((pad, None, False), ("v = 1 + \\", owner, True))
+        out.line((cont_pad(out, pad), None, False), (maybe_trailing(out, "2"), owner, True))
+    elif k < 0.8:
+        out.line((pad, None, False), ("w = g(1) \\", owner, True))
+        out.line((cont_pad(out, pad), None, False), ("+ h(2) \\", owner, True))
+        out.line((cont_pad(out, pad), None, False), (maybe_trailing(out, "+ 3"), owner, True))
+    else:
+        out.line((pad, None, False), ("assert x, \\", owner, True))
+        out.line((cont_pad(out, pad), None, False), ("'def f(): {'", owner, True))
+
+
 def gen_py_block(out, owner, ind, depth, in_func, allow_defs=True, n=None):
     rnd = out.rnd
     made = 0
     for _ in range(n or rnd.randint(1, 4)):
         noise(out, ind, owner)
+        if out.extras and rnd.random() < 0.12:
+            gen_py_continuation(out, owner, " " * ind)
+            made += 1
+            continue
         if getattr(out, "stubs", False) and rnd.random() < 0.15:
             # a one-line def (Protocol stub, trivial accessor): a header WITHOUT a suite. Outside the canonical
             # fragment of C01 (no expectation is derived for it), used by the metamorphic streams only
@@ -580,12 +640,12 @@ def gen_py_block(out, owner, ind, depth, in_func, allow_defs=True, n=None):
             out.line((pad + "    ", None, False), ("'''", owner, True))
         elif r < 0.62:
             out.line((pad, None, False), ("v = 1 + \\", owner, True))
-            out.line((pad + "    ", None, False), ("2", owner, True))
+            out.line((cont_pad(out, pad), None, False), ("2", owner, True))
         elif r < 0.63:
             # a line holding only the continuation backslash (its Text token is not blank: a code line)
             out.line((pad, None, False), ("v = 1 + \\", owner, True))
-            out.line((pad + "    ", None, False), ("\\", owner, True))
-            out.line((pad + "    ", None, False), ("2", owner, True))
+            out.line((cont_pad(out, pad), None, False), ("\\", owner, True))
+            out.line((cont_pad(out, pad), None, False), ("2", owner, True))
         elif r < 0.64:
             # an EMPTY line inside a non-docstring multi-line string: the lexer emits a String token "\n"
             # at column 1 of that line (a code line), and the logical line continues
@@ -614,7 +674,7 @@ def gen_py_block(out, owner, ind, depth, in_func, allow_defs=True, n=None):
 
 def gen_py_func(out, parent, ind, depth, body_len=None):
     rnd = out.rnd
-    name = out.fresh()
+    name = out.func_name()
     f = Func(len(out.funcs), name, parent)
     out.funcs.append(f)
     pad = " " * ind
@@ -664,11 +724,13 @@ def gen_py_func(out, parent, ind, depth, body_len=None):
     return f
 
 
-def gen_python_program(rnd, size=None, sweep=None, stubs=False, min_lines=None):
+def gen_python_program(rnd, size=None, sweep=None, stubs=False, min_lines=None, count=1, names=None, name_share=0.5, extras=False):
     out = Out("Python", rnd)
     out.stubs = stubs
+    out.names, out.name_share, out.extras = names, name_share, extras
     if sweep is not None:
-        gen_py_func(out, None, 0, 0, body_len=sweep)
+        for _ in range(count):
+            gen_py_func(out, None, 0, 0, body_len=sweep)
         return out
     gen_py_block(out, None, 0, 0, False, True, n=size or rnd.randint(1, 5))
     while min_lines is not None and len(out.lines) < min_lines:
@@ -676,9 +738,12 @@ def gen_python_program(rnd, size=None, sweep=None, stubs=False, min_lines=None):
     return out
 
 
-def generate(lang, rnd, size=None, sweep=None, stubs=False, min_lines=None):
-    """`sweep`: one function of exactly that many body statements; `min_lines`: keep adding top-level items (functions,
-    classes, global code) until the program has at least that many lines (size ladder over the number of functions)"""
+def generate(lang, rnd, size=None, sweep=None, stubs=False, min_lines=None, count=1, names=None, name_share=0.5, extras=False):
+    """`sweep`: one function (`count` functions) of exactly that many body statements; `min_lines`: keep adding top-level
+    items (functions, classes, global code) until the program has at least that many lines (size ladder over the number of
+    functions); `names`: pool of function names drawn WITH replacement for `name_share` of the functions (duplicate
+    names, overloads, words that are keywords in another language); `extras`: Python backslash continuations whose
+    following line is indented anyhow (also left of the enclosing header), C / C++ multi-line macros as global code"""
     if lang == "Python":
-        return gen_python_program(rnd, size, sweep, stubs, min_lines)
-    return gen_brace_program(lang, rnd, size, sweep, min_lines)
+        return gen_python_program(rnd, size, sweep, stubs, min_lines, count, names, name_share, extras)
+    return gen_brace_program(lang, rnd, size, sweep, min_lines, count, names, name_share, extras)
